@@ -27,6 +27,9 @@ pub mod c21;
 pub mod c22;
 pub mod c23;
 pub mod c25;
+pub mod c27;
+pub mod c28;
+pub mod ledger;
 pub mod c35;
 pub mod c36;
 pub mod c29;
@@ -59,6 +62,8 @@ pub fn run(cfg: &Cfg) -> Option<Report> {
         "C22" => c22::run(cfg),
         "C23" => c23::run(cfg),
         "C25" => c25::run(cfg),
+        "C27" => c27::run(cfg),
+        "C28" => c28::run(cfg),
         "C35" => c35::run(cfg),
         "C36" => c36::run(cfg),
         "C29" => c29::run(cfg),
